@@ -346,6 +346,34 @@ func run(seed int64, n int, dir string, _ []string) {
 			}
 		}
 
+		// DISTINCT on top of a grouped view: equal result rows coming from different groups are merged
+		if ncols >= 2 {
+			dg, err1 := pr.Query("SELECT DISTINCT " + cols[0] + " FROM t GROUP BY " + keyList)
+			dp, err2 := pr.Query("SELECT DISTINCT " + cols[0] + " FROM t")
+			if err1 == nil && err2 == nil {
+				a, b := ids(dg, 0), ids(dp, 0)
+				if strings.Join(a, "\x00") != strings.Join(b, "\x00") {
+					o.Law("distinct_over_grouped_view", map[string]interface{}{"strict": strict, "grouped": a, "plain": b})
+				}
+			}
+			dc, err1 := pr.Query("SELECT DISTINCT COUNT(*) AS n FROM t GROUP BY " + keyList)
+			gc, err2 := pr.Query("SELECT COUNT(*) AS n FROM t GROUP BY " + keyList)
+			if err1 == nil && err2 == nil {
+				seen := map[string]bool{}
+				var want []string
+				for _, x := range ids(gc, 0) {
+					if !seen[x] {
+						seen[x] = true
+						want = append(want, x)
+					}
+				}
+				if got := ids(dc, 0); strings.Join(got, ",") != strings.Join(want, ",") {
+					o.Law("distinct_over_grouped_view", map[string]interface{}{"strict": strict, "distinct_counts": got, "want": want})
+				}
+			}
+			o.Count("distinct_over_grouped_checks")
+		}
+
 		// the same aggregates over a derived table (no hidden row id in front, the aggregated column first)
 		dv, err1 := pr.Query("SELECT LISTAGG(id, ',') AS ids, " + aggs + " FROM (SELECT v, id, " + keyList + ", w FROM t) s GROUP BY " + keyList)
 		tv, err2 := pr.Query("SELECT LISTAGG(id, ',') AS ids, " + aggs + " FROM t GROUP BY " + keyList)
